@@ -39,11 +39,14 @@ type funcContract struct {
 	implements    string   // key suffix of a functype/iface contract whose clauses this function must satisfy
 	recovers      string   // a deferred function recovers panics of this type (callee panics of that type are not propagated)
 	atcalls       []*atcall
-	preserves     []string  // parameters whose referent is assumed untouched by heap-writing callees (tree shape)
-	abstractFloat bool      // float64 + - * / as uninterpreted functions (congruence only)
-	preciseAppend bool      // generate quantified content facts for append (needed only by functional contracts on slices)
-	decrGroup     string    // recursion group of the measure: only calls within one group are compared
-	fdecr         []*clause // function-level termination measure (lexicographic), checked at every call in the recursion group
+	atstores      []*atstore // `atstore pkg.T.f requires e`: obligation at every store to that field in this function (`value` = stored value)
+	preserves     []string   // parameters whose referent is assumed untouched by heap-writing callees (tree shape)
+	abstractFloat bool       // float64 + - * / as uninterpreted functions (congruence only)
+	splitReturns  bool       // one postcondition obligation per return statement instead of one over the merged exit state
+	opaqueArith   bool      // integer arithmetic results as declared constants with defining equations (helps quantifier triggers)
+	preciseAppend bool       // generate quantified content facts for append (needed only by functional contracts on slices)
+	decrGroup     string     // recursion group of the measure: only calls within one group are compared
+	fdecr         []*clause  // function-level termination measure (lexicographic), checked at every call in the recursion group
 	file          string
 	line          int
 }
@@ -74,7 +77,21 @@ func (fc *funcContract) taggedFor(p string) bool {
 			return true
 		}
 	}
+	for _, as := range fc.atstores {
+		if tagProp(as.cl.tag) == p {
+			return true
+		}
+	}
 	return false
+}
+
+// atstore: an in-body assertion anchored on a field (not on a line number): at every store to field in the function
+// under verification, expr must hold in the state of the store; `value` names the stored value and the caller's
+// locals are visible under their source names (closest dominating definition).
+type atstore struct {
+	field string
+	cl    *clause
+	seen  bool
 }
 
 // atcall: caller-side clause on the k-th call (in generation order) to a callee, e.g.
@@ -124,7 +141,7 @@ func (c *contracts) get(key string) *funcContract { return c.funcs[key] }
 var clauseKeywords = map[string]bool{"func": true, "pred": true, "spec": true, "requires": true, "ensures": true, "assigns": true,
 	"loop": true, "panics": true, "inline": true, "trusted": true, "noreturn": true, "props": true, "pure": true,
 	"field": true, "evaltype": true, "frameroot": true, "freshresult": true, "globalroot": true,
-	"implements": true, "recovers": true, "decreases": true, "funcfield": true, "precise-append": true, "nonnil": true, "preserves": true, "atcall": true, "abstract-float": true, "fieldrange": true}
+	"implements": true, "recovers": true, "decreases": true, "funcfield": true, "precise-append": true, "nonnil": true, "preserves": true, "atcall": true, "atstore": true, "opaque-arith": true, "split-returns": true, "abstract-float": true, "fieldrange": true}
 
 func loadContractFile(c *contracts, path string, pkgpath string) error {
 	data, err := os.ReadFile(path)
@@ -174,7 +191,7 @@ func loadContractFile(c *contracts, path string, pkgpath string) error {
 	for _, r := range raws {
 		kw, rest := splitKw(r.text)
 		tag := ""
-		if strings.HasPrefix(rest, "[") && (kw == "ensures" || kw == "requires" || kw == "decreases" || kw == "atcall") {
+		if strings.HasPrefix(rest, "[") && (kw == "ensures" || kw == "requires" || kw == "decreases" || kw == "atcall" || kw == "atstore") {
 			k := strings.Index(rest, "]")
 			tag = rest[1:k]
 			rest = strings.TrimSpace(rest[k+1:])
@@ -261,6 +278,10 @@ func loadContractFile(c *contracts, path string, pkgpath string) error {
 			cur.preciseAppend = true
 		case "abstract-float":
 			cur.abstractFloat = true
+		case "opaque-arith":
+			cur.opaqueArith = true
+		case "split-returns":
+			cur.splitReturns = true
 		case "atcall":
 			// atcall <callee>#<k> requires <expr>
 			f := strings.Fields(rest)
@@ -278,6 +299,18 @@ func loadContractFile(c *contracts, path string, pkgpath string) error {
 				return err
 			}
 			cur.atcalls = append(cur.atcalls, &atcall{callee: parts[0], ordinal: k, cl: cl})
+		case "atstore":
+			// atstore <pkg.T.f> requires <expr>
+			f := strings.Fields(rest)
+			if cur == nil || len(f) < 3 || f[1] != "requires" {
+				return fmt.Errorf("%s:%d: bad atstore clause (atstore pkg.T.f requires expr)", path, r.line)
+			}
+			body := strings.TrimSpace(strings.TrimPrefix(strings.TrimSpace(strings.TrimPrefix(rest, f[0])), "requires"))
+			cl, err := mk("atstore", -1, body)
+			if err != nil {
+				return err
+			}
+			cur.atstores = append(cur.atstores, &atstore{field: f[0], cl: cl})
 		case "preserves":
 			cur.preserves = append(cur.preserves, strings.Fields(strings.ReplaceAll(rest, ",", " "))...)
 		case "implements":
